@@ -18,15 +18,21 @@ const AR: &str = "noaa-nexrad-level2";
 struct Listed { err: bool, panic: bool, ids: Vec<Vec<u32>>, lms: Vec<Vec<i64>> }
 
 async fn list_rt(site: &str, vol: u64, max: usize) -> Listed {
-    match realtime::list_chunks_in_volume(site, VolumeIndex::new(vol as usize), max).await {
+    match guarded_async(realtime::list_chunks_in_volume(site, VolumeIndex::new(vol as usize), max)).await {
+        Err(_) => Listed { err: false, panic: true, ids: vec![], lms: vec![] },
+        Ok(r) => match r {
         Ok(v) => Listed { err: false, panic: false, ids: v.iter().map(|c| cps(c.name())).collect(), lms: v.iter().map(|c| c.date_time().map(|t| dm(&t)).unwrap_or(vec![-1, -1])).collect() },
         Err(_) => Listed { err: true, panic: false, ids: vec![], lms: vec![] },
+        },
     }
 }
 async fn list_ar(site: &str, date: &NaiveDate) -> Listed {
-    match archive::list_files(site, date).await {
+    match guarded_async(archive::list_files(site, date)).await {
+        Err(_) => Listed { err: false, panic: true, ids: vec![], lms: vec![] },
+        Ok(r) => match r {
         Ok(v) => Listed { err: false, panic: false, ids: v.iter().map(|c| cps(c.name())).collect(), lms: vec![] },
         Err(_) => Listed { err: true, panic: false, ids: vec![], lms: vec![] },
+        },
     }
 }
 
@@ -154,23 +160,24 @@ pub fn run(args: &Args) {
                     sim.set_frame(frame);
                     sim.set_cut_body(cut);
                     res.case(fnv(format!("{key}{status}{len}").as_bytes()), status == 200);
+                    let mut get_panicked = false;
                     let (out, data_equal, lm_equal, id_equal) = if realtime {
                         // half of the downloads use an identifier that carries a STALE listing time: the result must be stamped with the object's own Last-Modified
                         let stale = if k % 4 == 0 { Some(t - Duration::days(3)) } else { None };
                         let id = ChunkIdentifier::new(site.to_string(), VolumeIndex::new(vol as usize), name.clone(), stale);
-                        match realtime::download_chunk(site, &id).await {
+                        match guarded_async(realtime::download_chunk(site, &id)).await.unwrap_or_else(|p| { get_panicked = true; let _ = p; Err(Error::AWS(AWSError::S3GetObjectError(None))) }) {
                             Ok((rid, chunk)) => ("ok", chunk.data() == body.as_slice(), rid.date_time() == Some(t), rid.name() == name && rid.site() == site && rid.volume().as_number() as u64 == vol),
                             Err(e) => (if status == 200 && len < 6 && cut.is_none() { "ok" } else { classify(&e) }, true, true, true),
                         }
                     } else {
-                        match archive::download_file(archive::Identifier::new(name.clone())).await {
+                        match guarded_async(archive::download_file(archive::Identifier::new(name.clone()))).await.unwrap_or_else(|p| { get_panicked = true; let _ = p; Err(Error::AWS(AWSError::S3GetObjectError(None))) }) {
                             Ok(f) => ("ok", f.data().as_slice() == body.as_slice(), true, true),
                             Err(e) => (classify(&e), true, true, true),
                         }
                     };
                     let path = sim.log().iter().rev().find(|r| !r.is_list()).map(|r| cps(&r.path)).unwrap_or_default();
                     tr.ev(json!({"op": "get", "api": if realtime { "realtime" } else { "archive" }, "key": cps(&key), "status": status, "out": out, "data_equal": data_equal, "lm_equal": lm_equal, "id_equal": id_equal,
-                                 "panic": false, "req_path": path, "want_path": cps(&format!("/{}/{}", bucket, key)), "len": len, "frame": frame, "cut": cut.map(|c| c as i64).unwrap_or(-1)}));
+                                 "panic": get_panicked, "req_path": path, "want_path": cps(&format!("/{}/{}", bucket, key)), "len": len, "frame": frame, "cut": cut.map(|c| c as i64).unwrap_or(-1)}));
                 }
             });
             res.sample(json!({"listings": "0..1001 objects, colliding prefixes (5 vs 57), XML-special / non-ASCII / percent / plus keys, sizes to 2^64-1, timestamps with and without fraction, unparsable Size, garbled body", "downloads": "200/404/403/500/503, 0 B..4 MiB"}));
